@@ -339,6 +339,8 @@ RANDOM_COMBOS = {
     "mixed":     (C(2, 3, 2, fb=True, uc=1, ums=2, rr=True), "mixed"),
     "defaults":  (C(0, 0, 0), "mixed"),
     "minmax":    (C(3, 2, 1), "load"),
+    # maxSize 4294967295 and watermark 3000000000 (see vCfg.Big in the harness; the ghost sees the stand-in 1000000)
+    "big":       (dict(C(1, 1000000, 1000000), big=True), "load"),
 }
 PROP_COMBOS = {
     "C01": ["aff", "aff-ref", "aff-fb", "aff-wide", "mixed"],
@@ -350,7 +352,7 @@ PROP_COMBOS = {
     "C07": ["ref", "aff-ref", "load-ref", "ref-fb", "rr-ref"],
     "C08": ["aff-fb", "ref-fb", "faults", "mixed"],
     "C09": ["rr", "rr-ref", "mixed"],
-    "C17": ["defaults", "mixed"],
+    "C17": ["defaults", "big", "mixed"],
     "C20": ["ref", "faults", "mixed", "aff-ref"],
 }
 
